@@ -323,7 +323,8 @@ def run(chk):
         o = impl[n]
         obs = "P" if o.startswith("P:") else (o.rsplit("|", 1)[0] if "|" in o else o)
         items.append((coq_case(c), obs))
-    bad = common.coq_mismatches(["NumFmt.Model", "NumFmt.Exec"], items, "c14", shard_size=250)
+    bad = common.coq_mismatches(["NumFmt.Model", "NumFmt.Exec"], items, "c14",
+                                shard_size=max(250, -(-len(items) // common.NPROC)))   # one wave of coqc processes
 
     # property oracle on every case
     kinds = collections.Counter()
